@@ -3,11 +3,13 @@ package main
 import (
 	"bufio"
 	"crypto/sha256"
+	"crypto/tls"
 	"encoding/json"
 	"fmt"
 	"io"
 	"net"
 	"net/http/httputil"
+	"sync"
 	"time"
 )
 
@@ -31,7 +33,12 @@ func h1Last(e *env) {
 		}
 		res := map[string]any{"ok": true, "c": c}
 		want := sha256.New()
-		origin := startPeer("L", &hitLog{}, nil, func(p *peer, conn net.Conn, idx int) {
+		var otls *tls.Config
+		if c.Route == "mitm" {
+			ca, _ := harnessCAs()
+			otls = &tls.Config{Certificates: []tls.Certificate{ca.leaf([]string{"last.test"}, "")}}
+		}
+		origin := startPeer("L", &hitLog{}, otls, func(p *peer, conn net.Conn, idx int) {
 			br := bufio.NewReader(conn)
 			if _, err := readWireRequest(br); err != nil {
 				return
@@ -58,18 +65,40 @@ func h1Last(e *env) {
 			want.Write(b)
 			sent += len(b)
 		}
-		f, err := startFwd(fwdCfg{Name: "fwd", Localhost: "allow"})
+		f, err := startFwd(fwdCfg{Name: "fwd", Localhost: "allow", MITM: c.Route == "mitm"})
 		if err != nil {
 			fatal("start: %v", err)
 		}
 		f.mapName("last.test:80", origin.addr())
-		conn, err := net.DialTimeout("tcp", f.addr, 5*time.Second)
+		f.mapName("last.test:443", origin.addr())
+		tcpc, err := net.DialTimeout("tcp", f.addr, 5*time.Second)
 		if err != nil {
 			fatal("dial: %v", err)
 		}
-		conn.SetDeadline(time.Now().Add(60 * time.Second))
+		tcpc.SetDeadline(time.Now().Add(60 * time.Second))
+		var conn net.Conn = tcpc
+		var sniff *recordSniffer
+		if c.Route == "mitm" {
+			// TLS 1.2 towards the proxy: the type of every record is visible on the wire
+			io.WriteString(tcpc, "CONNECT last.test:443 HTTP/1.1\r\nHost: last.test:443\r\n\r\n")
+			if r0, err := readWireResponseHeadOnly(bufio.NewReaderSize(tcpc, 16)); err != nil || r0.Status != 200 {
+				fatal("CONNECT: %v", err)
+			}
+			_, mitmCA := harnessCAs()
+			cfg := tlsClientCfg(mitmCA, "last.test")
+			cfg.MaxVersion = tls.VersionTLS12
+			sniff = &recordSniffer{Conn: tcpc}
+			tc := tls.Client(sniff, cfg)
+			if err := tc.Handshake(); err != nil {
+				fatal("handshake inside the intercepted session: %v", err)
+			}
+			conn = tc
+		}
 		first := "GET http://last.test/big HTTP/1.1\r\nHost: last.test\r\n\r\n"
 		next := "GET http://last.test/next HTTP/1.1\r\nHost: last.test\r\n\r\n"
+		if c.Route == "mitm" {
+			first = "GET /big HTTP/1.1\r\nHost: last.test\r\n\r\n"
+		}
 		if c.Next == "pipelined" {
 			io.WriteString(conn, first+next)
 		} else {
@@ -104,6 +133,12 @@ func h1Last(e *env) {
 				res["ok"], res["why"] = false, fmt.Sprintf("body cut short: %d of %d octets, then %v (origin %s, next request %s)", got, size, rerr, c.Up, c.Next)
 			case string(h.Sum(nil)) != string(want.Sum(nil)):
 				res["ok"], res["why"] = false, "body bytes differ"
+			case sniff != nil:
+				// the body was delimited by the end of the connection: read on to that end
+				io.Copy(io.Discard, body)
+				if last := sniff.lastType(); last != 21 {
+					res["ok"], res["why"] = false, fmt.Sprintf("the TLS session inside which the body was delimited by the close ended without close_notify (last record type %d, records %v): a client cannot tell this end from a cut", last, sniff.tail())
+				}
 			}
 		}
 		conn.Close()
@@ -111,4 +146,51 @@ func h1Last(e *env) {
 		origin.close()
 		e.emit(res)
 	})
+}
+
+// recordSniffer notes the content type of every TLS record that arrives (TLS 1.2: 20 change_cipher_spec, 21 alert,
+// 22 handshake, 23 application data).
+type recordSniffer struct {
+	net.Conn
+	mu    sync.Mutex
+	need  int // octets of the current record still to come (0: a header is next)
+	hdr   []byte
+	types []byte
+}
+
+func (s *recordSniffer) Read(p []byte) (int, error) {
+	n, err := s.Conn.Read(p)
+	s.mu.Lock()
+	for _, b := range p[:n] {
+		if s.need > 0 {
+			s.need--
+			continue
+		}
+		s.hdr = append(s.hdr, b)
+		if len(s.hdr) == 5 {
+			s.types = append(s.types, s.hdr[0])
+			s.need = int(s.hdr[3])<<8 | int(s.hdr[4])
+			s.hdr = s.hdr[:0]
+		}
+	}
+	s.mu.Unlock()
+	return n, err
+}
+
+func (s *recordSniffer) lastType() int {
+	s.mu.Lock()
+	defer s.mu.Unlock()
+	if len(s.types) == 0 {
+		return -1
+	}
+	return int(s.types[len(s.types)-1])
+}
+
+func (s *recordSniffer) tail() []byte {
+	s.mu.Lock()
+	defer s.mu.Unlock()
+	if len(s.types) > 6 {
+		return append([]byte{}, s.types[len(s.types)-6:]...)
+	}
+	return append([]byte{}, s.types...)
 }
